@@ -220,6 +220,19 @@ def classify(diags, mp, unit_name=""):
 
 
 def verify_unit(unit, tier):
+    """One verification of a unit at a time per scratch directory: two checks started side by side share `.work/<unit>.rs`;
+    an exclusive lock per unit keeps one from reading a file the other is still writing."""
+    import fcntl
+    os.makedirs(WORK, exist_ok=True)
+    with open(os.path.join(WORK, unit + ".lock"), "w") as lf:
+        fcntl.flock(lf, fcntl.LOCK_EX)
+        try:
+            return _verify_unit(unit, tier)
+        finally:
+            fcntl.flock(lf, fcntl.LOCK_UN)
+
+
+def _verify_unit(unit, tier):
     """Run Verus on the assembled unit. A unit may list several option sets (`verus_arg_sets`): an obligation is
     discharged if any run discharges it; it fails if some run refutes it and none discharges it; otherwise it is
     a solver-budget case (undecided)."""
